@@ -310,6 +310,16 @@ def team_cases(tier, seed):
                 pl = "%d %d %d %s" % (nt, k, mode, payload)
                 add("ilu_team", pl)
                 if r.random() < 0.25: add("m.ilu_team_cyclic", pl)
+    # ENLARGED team (omp_set_num_threads raised between set-up and call): one case per process (see run)
+    nl = 0
+    for (n, rows, rhs, x) in gsm[:3]:
+        for nt in (4, 5):
+            for k in (nt + 1, 8):
+                out.append("TL%d gs_team %d %d %d 0 %s %s %s" % (nl, nl % 2, nt, k, fmt_crs(n, n, rows), fmt_vec(rhs), fmt_vec(x))); nl += 1
+    for (n, L, U, D, x) in ilm[:3]:
+        for nt in (4, 5):
+            for k in (nt + 1, 8):
+                out.append("TL%d ilu_team %d %d 0 %s %s %s %s" % (nl, nt, k, fmt_crs(n, n, L), fmt_crs(n, n, U), fmt_vec(D), fmt_vec(x))); nl += 1
     # row-parallel primitives
     NB = [F(1, 3), F(1, 10), F(-7, 3), F(2, 7), F(5, 9), F(1), F(-1), F(3, 2), F(-1, 10), F(22, 7)]
     nk = 14 if tier == "quick" else 60
@@ -457,6 +467,10 @@ def classify(f):
             sig["stage"] = "reduced-team"
             sig["setup_threads"] = nt; sig["team"] = team
             sig["team_smaller_than_setup_threads"] = team < nt
+            if team > nt:
+                # tasks[omp_get_thread_num()] is indexed out of bounds: undefined behaviour (crash, garbage or hang),
+                # no model of the old code predicts the outcome
+                sig["stage"] = "enlarged-team"; sig["team_larger_than_setup_threads"] = True
             sig["matches_truncated_team_model"] = bool(f.get("trunc_model")) and f.get("trunc_model") == f.get("impl")
         elif op.startswith("tt."):
             nt, k, mode = int(tok[2]), int(tok[3]), int(tok[4])
@@ -558,7 +572,15 @@ def run(ctx, cases_override=None):
                                   theorem="statement test: valid model schedule under a scripted interleaving = serial result"))
 
     # S6: reduced teams
-    team = [l for l in lines if l.split(" ", 2)[1] in ("gs_team", "ilu_team")]
+    team = [l for l in lines if l.split(" ", 2)[1] in ("gs_team", "ilu_team") and not l.startswith("TL")]
+    big = [l for l in lines if l.split(" ", 2)[1] in ("gs_team", "ilu_team") and l.startswith("TL")]
+    if big:
+        # one process per case: on the unrepaired code the region reads tasks[tid] out of bounds
+        f, _, _ = diff_run(ctx, "sched", big, env=ENV, shards=len(big), nontrivial=nontrivial, timeout=120,
+                           theorem="level-scheduled sweep / solve executed by a team LARGER than the thread count of the set-up "
+                                   "= serial definition (C09_gs_parallel_sweep_any_team / C09_sptr_solve_any_team hold for every k >= 1)")
+        for x in f: x["stage"] = "enlarged-team"
+        fails += f
     tkern = [l for l in lines if l.split(" ", 2)[1].startswith("tt.")]
     if team:
         f, impl6, model6 = diff_run(ctx, "sched", team, env=ENV, shards=8, nontrivial=nontrivial,
